@@ -120,7 +120,7 @@ func (r *BinReader) ReadArray(t any, maxSize ...int) {
 	}
 
 	lu := r.ReadVarUint()
-	if lu > uint64(ms) {
+	if ms < 0 || lu > uint64(ms) {
 		r.Err = fmt.Errorf("array is too big (%d)", lu)
 		return
 	}
